@@ -22,6 +22,13 @@ def runs(rng, tier):
             for th in ((2, 8) if i % 2 == 0 else (4, 16)):
                 out.append([rng.below(1 << 30), rng.choice([300, 600]), 'pingpong', rng.choice([20, 40]),
                             f'--pika:threads={th}', f'--pika:scheduler={pol}'])
+    # "zoo": wake-ups of every kind in one task's life (latch, mutex + condition variable, join, semaphore released by
+    # an OS thread, and an interrupt that ends a condition-variable wait after which the same task blocks again)
+    for i, pol in enumerate(POLICIES):
+        for th in ((2, 4, 8) if tier == 'thorough' else ((4,) if i % 2 == 0 else (3,))):
+            for k in range(3 if tier == 'thorough' else 1):
+                out.append([rng.below(1 << 30), rng.choice([0, 100, 300]), 'zoo', rng.choice([8, 12]),
+                            f'--pika:threads={th}', f'--pika:scheduler={pol}'])
     return out
 
 
@@ -41,7 +48,7 @@ def stats(raw):
 e2check.run(dict(
     prop='C02', model='sched', harness='e2/sched.cpp', bin='e2_sched', props=['C02'], translators=['stateword.py'],
     runs=runs, extra_runs=extra_runs, nontrivial=nontrivial, stats=stats, par=3, timeout_s=900,
-    rule='hand-shake programs: a task blocks on a counting_semaphore (condition_variable + suspend) that a child task or an external OS thread releases, possibly before the waiter has finished switching off its worker; boosted spin-waits; all scheduling policies, 2-16 workers, PRNG timing perturbation at the instrumented sites (state-word loads/exchanges, queue insertions); non-trivial = at least one suspended->pending wake-up in the log; distinct = distinct argv',
+    rule='hand-shake programs: a task blocks on a counting_semaphore (condition_variable + suspend) that a child task or an external OS thread releases, possibly before the waiter has finished switching off its worker; boosted spin-waits; "zoo" programs (latch, mutex + condition variable, join, an interrupt that ends a condition-variable wait after which the interrupted task blocks again and is released); all scheduling policies, 2-16 workers, PRNG timing perturbation at the instrumented sites (state-word loads/exchanges, queue insertions); non-trivial = at least one suspended->pending wake-up in the log; distinct = distinct argv',
     assumptions=['helper-abort soundness (tag argument) is argued in DESIGN.md, not proved',
                  'timed suspension does not exist in this tree (this_thread::sleep_for throws), so no timer wakes are exercised'],
 ))
